@@ -403,7 +403,7 @@ var MarkerTable = map[string]MarkerSet{
 	"alpm":       {Pre: []string{"a", "alpha", "beta", "pre", "rc", "rc1", "beta2"}, Post: nil},
 	"apache":     {Pre: []string{"-alpha", "-alpha1", "-beta", "-beta2", "-RC1", "-rc1", "-M1", "-milestone2", "-SNAPSHOT", "-dev", "-ALPHA", "-Beta1"}, Post: nil},
 	"cargo":      {Pre: []string{"-alpha", "-alpha.1", "-rc1", "-rc.1", "-0", "-SNAPSHOT", "-beta.2", "-pre", "-1", "-a.b.c"}, Post: nil},
-	"composer":   {Pre: []string{"-alpha", "-alpha1", "-beta", "-beta.2", "-RC1", "-rc1", "a1", "b2", "rc1", "RC2", "-dev", "alpha1", "beta3", "-a1", "-b"}, Post: []string{"-patch1", "pl1", "-patch2", "pl2"}},
+	"composer":   {Pre: []string{"-alpha", "-alpha1", "-beta", "-beta.2", "-RC1", "-rc1", "a1", "b2", "rc1", "RC2", "-dev", "alpha1", "beta3", "-a1", "-b"}, Post: []string{"-patch1", "pl1", "-patch2", "pl2", "-patch", "pl"}},
 	"conan":      {Pre: []string{"-alpha", "-rc.1", "-rc1", "-pre", "-0", "-beta.2", "-1"}, Post: nil},
 	"cran":       {},
 	"debian":     {Pre: []string{"~rc1", "~", "~~", "~beta", "~1", "~a"}, Post: []string{"-1", "+b1", "+dfsg", "-0ubuntu1", "+1", ".1", "a", "-1~bpo1"}},
